@@ -12,13 +12,16 @@ from pathlib import Path
 from . import core, tlc
 from .replay import ensure_repo_on_path
 
-CHECKS = {
-    "C09": "harness.c09",
-    "C10": "harness.c10",
-    "C11": "harness.c11",
-    "C12": "harness.c12",
-    "C13": "harness.c13",
-}
+def _discover() -> dict[str, str]:
+    """Every harness/cNN.py module is the check of property CNN (exports main(tier, seed))."""
+    import re
+    out = {}
+    for f in sorted((core.VERIF / "harness").glob("c[0-9][0-9].py")):
+        out["C" + re.match(r"c(\d\d)", f.name).group(1)] = f"harness.{f.stem}"
+    return out
+
+
+CHECKS = _discover()
 
 
 def setup() -> int:
